@@ -25,22 +25,24 @@ ASSUMPTIONS = [
     'ddl=True sessions and the nested-serializable refusal of _enter are outside the model; immediate/strict/serializable/optimistic are varied in the '
     'correspondence run and shown not to influence the observations',
 ]
-RULE = ('every implementation run is judged twice - by the Coq model (correspondence) and by the statement-level oracle (search): `evaluations` counts both judgements, `distinct_nontrivial` counts each distinct run once. ' 'exhaustive: decorator sessions with retry 0..3 x every stream of body outcomes of length retry+1 over {finish, raise one of 6 exception kinds (5 for length 4 in the quick tier) '
-        '(plain / allowed / retryable / both / should_retry / allowed+should_retry)} (x poisoned-write variants for the shorter streams) x list-or-callable '
+RULE = ('every implementation run is judged twice - by the Coq model (correspondence) and by the statement-level oracle (search): `evaluations` counts both judgements, `distinct_nontrivial` counts each distinct run once. ' 'exhaustive: decorator sessions with retry 0..3 x every stream of body outcomes of length retry+1 over {finish, raise one of 9 exception kinds '
+        '(plain / allowed / retryable / both / should_retry / allowed+should_retry, and three kinds derived from BaseException only: plain / allowed / retryable; '
+        'length-3 and length-4 streams use two sub-alphabets)} (x poisoned-write variants for the shorter streams) x list-or-callable '
         'predicates x option flags; nested programs (with / decorated call / try / sequence, depth <= 2 exhaustive, depth 3 sampled from the seed); generator '
         'step sequences up to 3 resumptions; Flask and Bottle requests. non-trivial = the run retried, or a commit failed, or a session was nested, or an '
         'exception propagated; distinct = distinct case descriptions')
 
-SESS_STREAM = {'allowed': [1, 3, 5], 'retryable': [2, 3]}
+SESS_STREAM = {'allowed': [1, 3, 5, 7], 'retryable': [2, 3, 8]}
 FLAGS = [{}, {'immediate': True}, {'strict': True}, {'serializable': True}, {'optimistic': False}, {'immediate': True, 'strict': True}]
 REPS = ['ll', 'cc', 'lc', 'cl']
-OUTS = [-1, 0, 1, 2, 3, 4, 5]
+OUTS = [-1, 0, 1, 2, 3, 4, 5, 6, 7, 8]     # 6, 7, 8: BaseException-only kinds (plain / allowed / retryable)
+BASE_ONLY = (6, 7, 8)
 SHOULD_RETRY = (4, 5)
 
 # sessions used inside nested programs
-W_SESS = [{'retry': 0, 'allowed': [], 'retryable': []}, {'retry': 0, 'allowed': [1], 'retryable': []}]
-C_SESS = [{'retry': 0, 'allowed': [], 'retryable': []}, {'retry': 0, 'allowed': [1], 'retryable': []}, {'retry': 1, 'allowed': [], 'retryable': [2]}]
-LEAVES = [(0, -1), (0, 0), (0, 1), (0, 2), (1, -1)]
+W_SESS = [{'retry': 0, 'allowed': [], 'retryable': []}, {'retry': 0, 'allowed': [1, 7], 'retryable': []}]
+C_SESS = [{'retry': 0, 'allowed': [], 'retryable': []}, {'retry': 0, 'allowed': [1, 7], 'retryable': []}, {'retry': 1, 'allowed': [], 'retryable': [2]}]
+LEAVES = [(0, -1), (0, 0), (0, 1), (0, 2), (1, -1), (0, 6), (0, 7)]
 
 
 # ------------------------------------------------------------------------------------------------ case spaces
@@ -49,8 +51,15 @@ def stream_cases(ctx, deep=False):
     k = 0
     maxr = 4 if (deep and ctx.thorough) else 3
     for r in range(0, maxr + 1):
-        alphabet = OUTS if (r <= 2 or ctx.thorough) and r <= 3 else ([-1, 0, 1, 2, 3, 4] if r == 3 else [-1, 0, 1, 2, 3])     # quick: length-4 streams over 6 outcomes
-        for outs in itertools.product(alphabet, repeat=r + 1):
+        if r <= 1 or (ctx.thorough and r <= 2): alphabets = [OUTS]
+        elif r == 2: alphabets = [[-1, 0, 1, 2, 3, 4, 5], [-1, 2, 6, 7, 8]]
+        elif r == 3 and ctx.thorough: alphabets = [[-1, 0, 1, 2, 3, 4, 5], [-1, 2, 6, 7, 8]]
+        elif r == 3: alphabets = [[-1, 0, 1, 2, 3, 4], [-1, 2, 6, 7, 8]]      # quick: length-4 streams over 6 outcomes + the BaseException-only kinds
+        else: alphabets = [[-1, 0, 1, 2, 3], [-1, 2, 6, 8]]
+        seen_streams = set()
+        for outs in itertools.chain(*[itertools.product(a, repeat=r + 1) for a in alphabets]):
+            if outs in seen_streams: continue
+            seen_streams.add(outs)
             reps = REPS if r <= 1 or ctx.thorough else [REPS[k % 4]]
             for rep in reps:
                 k += 1
@@ -59,7 +68,7 @@ def stream_cases(ctx, deep=False):
     # poisoned writes: the flush inside commit() raises kind cfail
     pr = 2 if not ctx.thorough else 3
     for r in range(0, pr + 1):
-        alphabet = [(p, o) for p in (0, 1) for o in (OUTS if r <= 1 else [-1, 0, 1, 2, 3])]
+        alphabet = [(p, o) for p in (0, 1) for o in (OUTS if r <= 1 else ([-1, 0, 1, 2, 3, 6] if r == 2 else [-1, 0, 1, 2, 3]))]
         for outs in itertools.product(alphabet, repeat=r + 1):
             if not any(p for p, o in outs): continue
             for cf in ([0, 1, 2, 3] if r <= 1 else [0, 2]):
@@ -121,7 +130,7 @@ def prog_cases(ctx, deep=False):
             if c: yield c
     # depth 3: sampled (all of them in a deep search)
     d2 = inner_progs(2)
-    n = len(d2) if (deep and ctx.thorough) else ctx.scale(700, 6000)
+    n = len(d2) if (deep and ctx.thorough) else ctx.scale(400, 6000)
     rng = ctx.rng
     for _ in range(n):
         p = d2[rng.randrange(len(d2))]
@@ -132,7 +141,7 @@ def prog_cases(ctx, deep=False):
 
 
 GOPS = [[], [['w', 0, 0]], [['w', 0, 0], ['c']], [['w', 0, 0], ['c'], ['w', 0, 0]], [['w', 0, 1]], [['w', 0, 1], ['c']], [['c']]]
-GENDS = ['yield', 'stop', ['raise', 0], ['raise', 1]]
+GENDS = ['yield', 'stop', ['raise', 0], ['raise', 1], ['raise', 6]]
 
 
 def gen_cases(ctx, deep=False):
@@ -158,9 +167,9 @@ def gen_cases(ctx, deep=False):
 
 def web_cases(ctx):
     for p in (0, 1):
-        for o in (-1, 0, 1):
+        for o in (-1, 0, 1, 6):
             yield {'kind': 'flask', 'view': [p, o], 'cfail': 0}
-        for o in (-1, 0, 1, 2, 3):
+        for o in (-1, 0, 1, 2, 3, 4):      # bottle kinds: other Exception, HTTPResponse, HTTPError, TransactionError, a BaseException-only class
             yield {'kind': 'bottle', 'view': [p, o], 'cfail': 0}
 
 
@@ -407,7 +416,7 @@ def spec_prog_rows(p, cf):
             w2, po2, e2 = body(q[2])
             return w + w2, po or po2, e2
         if t == 'try':
-            w, po, e = body(q[1]); return w, po, -1
+            w, po, e = body(q[1]); return w, po, (e if e in BASE_ONLY else -1)
         return body(q[2])
     def top(q):
         t = q[0]
@@ -418,7 +427,7 @@ def spec_prog_rows(p, cf):
             return top(q[2])
         if t == 'try':
             e = top(q[1])
-            return None if e is None else -1
+            return None if e is None else (e if e in BASE_ONLY else -1)
         if t in ('with', 'call'):
             s = q[1]
             w, po, e = body(q[2])
